@@ -31,7 +31,7 @@ MISS_NOTES = {
  "C10-C": "the change breaks Bvf::resize (stale word after shrinking to a word boundary), which then makes Hash disagree with Eq; C10's harnesses start from Inv states and never resize, so C10 itself exits 0 - it is caught by C07 (and C03), which own that behaviour",
  "C10-D": "the change drops the final mask of Bvf |=, ^= with a heap operand; C10 itself exits 0 (Inv pre-states) - it is caught by C04 (and C03)",
  "C14-C": "first run: exit 2 (Kani failed the harness but the playback was empty, so nothing could be replayed; and the stub ignored the formatter state) -> the pad_integral stub now records width/fill/alignment/flags for a symbolic format specification and c14_q_dec_bvdyn1_l3 was added",
- "C14-D": "NOT reported as a violation: the change re-implements Bvd hex formatting on top of write!/format machinery, every harness that reaches it (stubbed and end-to-end) exceeds its time budget under the change -> the check exits 2 (inconclusive) in both tiers. The change does not pass silently, but it is not demonstrated either",
+ "C14-D": "NOT reported as a violation: the change re-implements Bvd hex formatting on top of write!/format machinery, every harness that reaches it (stubbed and end-to-end) exceeds its time budget under the change -> the check exits 2 (inconclusive) in both tiers. The change does not pass silently, but it is not demonstrated either. A further attempt with a structurally sparse operand (low word concretely zero, 6-bit symbolic high word, end-to-end byte comparison) passes on the real tree in 20-150 s but still exceeds 1500 s per harness under the change (alloc::fmt::format per word), so it was not kept; stubbing fmt::format would hide exactly the behaviour the change alters",
  "C01-C": "first run: exit 0 only because the scratch-copy mode skipped engine S at the time; with engine S following the copy, the usize::cadd obligation is refuted and replayed (prim_usize_cadd)",
  "C03-D": "first run: quick tier exit 0 (missed): no Bvd x Bvf multiplication at a length that is not a multiple of 64 -> c03_q_heap_mul_* and c01_q_mul_bvd2_l100_f64x2 / _l70_bvfix added",
  "C09-C": "first run: quick tier exit 0 (missed): no heap Bv longer than the Bvf's capacity -> c09_q_pc_bvdyn1s_f8x1 etc. added",
